@@ -16,8 +16,8 @@ THEOREMS = [
     "C14.palette_unchanged", "C14.nocolor", "C14.cache_fresh", "C14.no_error", "C14.no_error_add",
     "C14.parsed_colors_accepted", "C14.global_off_same", "C14.resolve_spec_global", "C14.synced_fresh",
     "C14.registered_class_described", "C14.synced_pending_uncoloured", "C14.no_error_global", "C14.no_error_pal",
-    "C14.setGlobal_reentrant_raises", "C14.single_conf_same", "C14.non_global_registration_inert",
-    "C14.synced_follow_current_global",
+    "C14.setGlobal_reentrant_raises", "C14.sub_palette_fresh", "C14.single_conf_same",
+    "C14.non_global_registration_inert", "C14.synced_follow_current_global",
 ]
 
 
@@ -278,13 +278,15 @@ def _accessors(p, check_get_color):
 def _impl(col, case, synced):
     conf, dead, classes = None, False, []
     confs, globbed = [], False           # the configurations of the case; whether one of them was made the global one
+    compounds = set()
     out = []
     for line in case["lines"]:
         op, *args = line.split()
         if op == "cls":
             try:
                 k, _, cname = args[0].partition("@")
-                k = int(k)
+                compound = k.endswith("+")
+                k = int(k.rstrip("+"))
                 cname = dec_str(cname) if cname else "P%d" % k
                 parents = [] if args[1] == "none" else [int(x) for x in args[1].split(",")]
                 accs = [] if args[2] == "none" else [tuple(dec_str(x) for x in p.split("=")) for p in args[2].split(";")]
@@ -298,7 +300,10 @@ def _impl(col, case, synced):
             body["SYNTAX_DEFAULTS"] = dflt
             body["PARENT_PALETTES"] = [classes[p] for p in parents] if parents else None
             # distinct class objects, possibly with one and the same module + qualified name
-            classes.append(type(cname, (col.Palette,), body))
+            if compound:
+                body["SUB_PALETTES_MAP"] = {}
+                compounds.add(k)
+            classes.append(type(cname, (col.CompoundPalette if compound else col.Palette,), body))
             out.append("ok")
             continue
         if dead:
@@ -339,6 +344,12 @@ def _impl(col, case, synced):
                     out.append("bad-op")
                     continue
                 out.append(_accessors(classes[k](conf, nc), True))
+            elif op == "sub":
+                k, j, nc = int(args[0]), int(args[1]), args[2] == "1"
+                if conf is None or k >= len(classes) or j >= len(classes) or k not in compounds or (nc and len(confs) > 1):
+                    out.append("bad-op")
+                    continue
+                out.append(_accessors(classes[k](conf, nc).get_sub_palette(classes[j]), True))
             elif op == "glob":
                 if conf is None or synced is None:
                     out.append("bad-op")
@@ -348,7 +359,7 @@ def _impl(col, case, synced):
                 out.append("ok")
             elif op == "syn":
                 k = int(args[0])
-                if conf is None or synced is None or k >= len(classes):
+                if conf is None or synced is None or k >= len(classes) or k in compounds:
                     out.append("bad-op")
                     continue
                 synced[k] = classes[k](synced=True)
@@ -396,7 +407,7 @@ def observable(i, line):
 _O_NAMES = ["BLACK", "RED", "GREEN", "YELLOW", "BLUE", "MAGENTA", "CYAN", "WHITE"]
 _O_EFFECTS = ["bold", "faint", "underline", "blink", "crossed"]
 _O_ID = __import__("re").compile(r"[A-Za-z_][A-Za-z0-9_]*(\.[A-Za-z0-9_]+)*\Z")
-_O_RGB = __import__("re").compile(r"\(([0-5]),([0-5]),([0-5])\)\Z")
+_O_RGB = __import__("re").compile(r"\( *([0-5]) *, *([0-5]) *, *([0-5]) *\)\Z")
 
 
 class _Unknown(Exception):
@@ -404,7 +415,10 @@ class _Unknown(Exception):
 
 
 def _o_color(t):
-    """colour slot: '' (unspecified), '-' (terminal default) or a value for ColorFmt; _Unknown otherwise"""
+    """colour slot: '' (unspecified), '-' (terminal default) or a value for ColorFmt; _Unknown otherwise.
+    Blanks around a colour token (and around the numbers of an rgb tuple) do not count: the parser strips every colour
+    token, every rgb component and every listed modifier on purpose, so the blank spelling is the same description."""
+    t = t.strip(" ")
     if t in ("", "-") or t in _O_NAMES:
         return t
     if t.startswith("g") and t[1:].isdigit() and str(int(t[1:])) == t[1:] and int(t[1:]) < 24:
@@ -436,7 +450,12 @@ def _o_colors(sec):
 
 def _o_mods(sec):
     mods = {}
+    if "," not in sec and sec != sec.strip(" "):
+        raise _Unknown(sec)          # a single modifier is recognised only in its exact spelling
     for w in sec.split(","):
+        w = w.strip(" ")
+        if not w and "," in sec:
+            continue                 # empty items of a list are dropped
         if w in _O_EFFECTS:
             mods[w] = True
         elif w.startswith("no_") and w[3:] in _O_EFFECTS:
@@ -472,7 +491,7 @@ def _o_parse(descr):
     if _o_is_colors(secs[0]):
         parent, (fg, bg) = None, _o_colors(secs[0])
         rest = secs[1:]
-        if len(rest) > 1 or (rest and (rest[0] == "" or _o_is_colors(rest[0]))):
+        if len(rest) > 1 or (rest and (rest[0].strip(" ") == "" or _o_is_colors(rest[0]))):
             raise _Unknown(descr)       # colours twice / empty modifiers section: not claimed valid
         mods = _o_mods(rest[0]) if rest else {}
         return parent, fg, bg, mods
@@ -486,7 +505,7 @@ def _o_parse(descr):
         fg, bg = _o_colors(rest[0])
         rest = rest[1:]
         if rest:
-            if rest[0] == "":
+            if rest[0].strip(" ") == "":
                 raise _Unknown(descr)
             mods = _o_mods(rest[0])
             rest = rest[1:]
@@ -663,6 +682,18 @@ def _oracle_walk(case, replies):
             if msg:
                 return msg
             continue
+        elif op == "sub":
+            # a sub-palette handed out by a compound palette obtained from the configuration NOW is a palette of that
+            # configuration in its current state
+            k, j, nc = int(args[0]), int(args[1]), args[2] == "1"
+            register(k, spec)
+            register(j, spec)
+            if not rep.startswith("ok"):
+                return "raises: line %d %r answers %s" % (n, line, rep)
+            msg = check_palette(n, j, rep, nc, "sub-palette", spec)
+            if msg:
+                return msg
+            continue
         elif op == "glob":
             # every synced palette registers its class in the configuration that becomes the global one
             # … and from now on the synced palettes show THIS configuration, whichever was the global one before
@@ -833,10 +864,17 @@ def _gen_descr(rng, parent):
         c = fg
         if rng.random() < 0.5:
             c = fg + "/" + rng.choice(_COLS)
+        if rng.random() < 0.12:
+            # the blank spelling: blanks around colour tokens (single token or FG/BG pair, rgb components)
+            c = "/".join(rng.choice(["", " "]) + (x.replace(",", rng.choice([", ", " ,"])) if x.startswith("(") else x) +
+                         rng.choice(["", " ", "  "]) for x in c.split("/"))
         secs.append(c)
     mods = rng.sample(_MODS, rng.choice([0, 0, 1, 1, 2, 3]))
     if mods:
-        secs.append(",".join(mods))
+        if len(mods) > 1 and rng.random() < 0.12:
+            secs.append(rng.choice([", ", " ,", " , "]).join(mods) + rng.choice(["", " ", ", "]))
+        else:
+            secs.append(",".join(mods))
     return ":".join(secs)
 
 
@@ -1009,6 +1047,12 @@ def corpus():
              "new 0 " + cfg_str({"DEMO.X": "BLUE:bold"}), "use 0", "glob", "syn 0", "use 1", "glob", "sget 0",
              "use 0", "add " + cfg_str({"FRESH": "GREEN"}), "sget 0", "pal 0 0", "sget 0", "use 1", "get " + enc_str("DEMO.X")],
             "global-replaced")
+    # a compound palette hands out sub-palettes of the configuration it was obtained from, in its current state
+    yield c(["cls 0 none %s=%s %s" % (enc_str("e"), enc_str("ENUM.ID"), cfg_str({"ENUM.ID": "ENUM.BASE:bold"})),
+             "cls 1+ none %s=%s nodefaults" % (enc_str("border"), enc_str("TBL.BORDER")),
+             "new 0 " + cfg_str({"TBL.BORDER": "RED"}), "new 0 " + cfg_str({"ENUM.BASE": "GREEN"}),
+             "use 0", "sub 1 0 0", "add " + cfg_str({"ENUM.BASE": "BLUE/g5"}), "sub 1 0 0", "use 1", "sub 1 0 0",
+             "get " + enc_str("ENUM.ID")], "sub-palette")
     # two distinct palette classes with one and the same name are two components
     yield c(["cls 0@%s none %s=%s %s" % (enc_str("Pal"), enc_str("a"), enc_str("A.ACCENT"), cfg_str({"A.ACCENT": "RED:bold"})),
              "cls 1@%s none %s=%s %s" % (enc_str("Pal"), enc_str("b"), enc_str("B.ACCENT"), cfg_str({"B.ACCENT": "A.ACCENT:/BLUE"})),
@@ -1079,6 +1123,7 @@ def _gen_palettes(rng, tier):
         lines = []
         # distinct classes that share module and qualified name (a factory called twice, type("Pal", …) twice)
         same_name = "@" + enc_str("Pal") if rng.random() < 0.35 else ""
+        compound = []
         for k in range(ncls):
             parents = sorted(rng.sample(range(k), rng.randint(0, k))) if rng.random() < 0.6 else []
             accs = {"a%d" % i: p for i, p in enumerate(rng.sample(probes, min(len(probes), rng.randint(0, 3))))}
@@ -1086,13 +1131,18 @@ def _gen_palettes(rng, tier):
                 accs["text"] = rng.choice(probes)
             grp = groups[k + 1]
             dflt = "nodefaults" if (not grp and rng.random() < 0.5) else cfg_str(_nest(grp, rng) or dict(grp))
-            lines.append("cls %d%s %s %s %s" % (k, same_name, ",".join(map(str, parents)) or "none",
-                                                ";".join("%s=%s" % (enc_str(a), enc_str(s)) for a, s in accs.items()) or "none", dflt))
+            if rng.random() < 0.4:
+                compound.append(k)
+            lines.append("cls %d%s%s %s %s %s" % (k, "+" if k in compound else "", same_name, ",".join(map(str, parents)) or "none",
+                                                  ";".join("%s=%s" % (enc_str(a), enc_str(s)) for a, s in accs.items()) or "none", dflt))
         lines.append("new %d %s" % (1 if rng.random() < 0.1 else 0, cfg_str(_nest(groups[0], rng) or dict(groups[0]))))
         gets = ["get " + enc_str(p) for p in probes]
         for _ in range(rng.randint(2, 6)):
             r = rng.random()
-            if r < 0.7:
+            if r < 0.25 and compound:
+                # a sub-palette handed out by a compound palette, before and after registrations
+                lines.append("sub %d %d %d" % (rng.choice(compound), rng.randrange(ncls), 1 if rng.random() < 0.2 else 0))
+            elif r < 0.7:
                 lines.append("pal %d %d" % (rng.randrange(ncls), 1 if rng.random() < 0.25 else 0))
             elif r < 0.85:
                 lines.extend(rng.sample(gets, min(2, len(gets))))
@@ -1108,6 +1158,8 @@ def _gen_palettes(rng, tier):
         lines.extend(gets)
         for k in range(ncls):
             lines.append("pal %d 0" % k)
+        for k in compound:
+            lines.append("sub %d %d 0" % (k, rng.randrange(ncls)))
         yield {"lines": lines + ["rep", "ids"], "meta": {"kind": "palette", "items": len(items), "depth": depth}}
 
 
@@ -1204,6 +1256,10 @@ def _gen_multi(rng, tier):
             lines.append("cls %d%s %s %s %s" % (k, same_name, ",".join(map(str, parents)) or "none",
                                                 ";".join("%s=%s" % (enc_str(a), enc_str(x)) for a, x in accs.items()), dflt))
         ncls += 1
+        # a compound palette class (tables / records of the package): hands out sub-palettes of the other classes
+        lines.append("cls %d+ none %s=%s nodefaults" % (ncls, enc_str("frame"), enc_str(rng.choice(probes))))
+        compound_k = ncls
+        ncls += 1
         # the configurations describe (partly) the same ids differently
         for c in range(nconf):
             own = {}
@@ -1221,7 +1277,7 @@ def _gen_multi(rng, tier):
             if cur_global is not None:
                 lines.extend("sget %d" % k for k in syn)
 
-        for k in range(ncls):
+        for k in range(ncls - 1):
             if rng.random() < 0.35:
                 lines.append("syn %d" % k)
                 syn.append(k)
@@ -1235,7 +1291,7 @@ def _gen_multi(rng, tier):
                 cur_global = c
                 was_global.discard(c)
             elif r < 0.40:
-                k = rng.randrange(ncls)
+                k = rng.randrange(ncls - 1)
                 lines.append("syn %d" % k)
                 if k not in syn:
                     syn.append(k)
@@ -1253,13 +1309,16 @@ def _gen_multi(rng, tier):
                     lines.append("add " + cfg_str({"NEW%d" % step: _gen_descr(rng, None), "NOWHERE.W": _gen_descr(rng, None)}))
                 elif kind < 0.75:
                     lines.append("reg %s %s" % (enc_str("comp%d" % step), cfg_str({"NEW%d" % step: _gen_descr(rng, None)})))
-                else:
+                elif kind < 0.88:
                     lines.append("pal %d %d" % (rng.randrange(ncls), 1 if rng.random() < 0.15 else 0))
+                else:
+                    lines.append("sub %d %d 0" % (compound_k, rng.randrange(ncls - 1)))
                 lines.extend(gets)
             read_all()
         for c in range(nconf):
             lines.append("use %d" % c)
             lines.extend(gets)
+            lines.append("sub %d %d 0" % (compound_k, rng.randrange(1, ncls - 1)))
             lines.append("rep")
         read_all()
         yield {"lines": lines, "meta": {"kind": "multi-conf", "items": len(items), "depth": depth}}
@@ -1449,6 +1508,10 @@ def tags(case, replies):
     if any(r.startswith("ok") and ":U" in r for l, r in zip(case["lines"], replies) if l == "ids"):
         yield "unresolved-at-end"
     descrs = [dec_str(t[2:]) for l in case["lines"] for t in l.split() if t.startswith("s:") and t != "s:-"]
+    if any(" " in d for d in descrs) and case.get("meta", {}).get("kind") not in ("odd-description", "malformed-odd", "malformed-bad"):
+        yield "blanks-in-description"
+    if any(l.startswith("sub ") for l in case["lines"]):
+        yield "sub-palette"
     if any(":-" in d or "-/" in d or "/-" in d for d in descrs):
         yield "dash-in-description"
     # falsy colour values (int 0, 'g0', (0,0,0)) in a description that also has a parent
@@ -1520,12 +1583,19 @@ RULE = ("acyclic description sets of 1-6 (thorough: 2-8) ids, chains of depth <=
         "registration; shadowed ids; palette classes with parent palettes; the configuration made the global one with synced "
         "palettes created before and after, batches of pending items only under a coloured default syntax; 2-3 configurations "
         "taking turns as the global one with registrations into former global ones; distinct palette "
-        "classes sharing one name; reference chains of 10-1500 (thorough 3000) links pending at once; make_report at the end of "
+        "classes sharing one name; compound palettes handing out sub-palettes before/after registrations and under several "
+        "configurations; the blank spelling of descriptions (blanks around colour tokens, rgb components, listed modifiers); "
+        "reference chains of 10-1500 (thorough 3000) links pending at once; make_report at the end of "
         "every history; malformed/unusual descriptions and cycles. "
         "non-trivial = at least one later registration and either an error reply or a coloured answer; distinct by protocol text")
 TRUSTED = ["ColorFmt (C09) renders the expected (fg, bg, effects) triple in the oracle",
            "the per-case adapter: fresh ColorsConfig and fresh Palette classes for every case"]
+NOCOLOR_COMPOUND_NOTE = ("observation (not judged): CompoundPalette(conf, no_color=True) is one object per class (_PALETTE_NO_COLOR) "
+                         "that keeps the configuration it was first built for; get_sub_palette on it, when reached through another "
+                         "configuration, registers the sub-palette class's SYNTAX_DEFAULTS in the FIRST configuration, not in the one "
+                         "the caller passed (colours are unaffected: all no-colour). Input: cls 4+; new; new; pal 4 1; use 0; sub 4 2 1; rep")
 ASSUMPTIONS = ["ids colliding with colour names or modifier names are out of domain",
+               "no-colour sub-palettes of compound palettes are exercised with one configuration only (see NOCOLOR_COMPOUND_NOTE)",
                "descriptions are ASCII; int() and str.strip() are modelled for ASCII input only",
                "after an exception the configuration is not used any more (both sides answer `dead`)"]
 LEVEL_TEXT = ("Kernel-checked for every history (any split of the descriptions between the constructor and later add_new_items / "
@@ -1541,7 +1611,8 @@ LEVEL_TEXT = ("Kernel-checked for every history (any split of the descriptions b
               "time, and for a described id with an incomplete chain exactly when the registrations in between complete the chain "
               "to a visible effect [palette_twice, palette_after_palette, palette_unchanged: C10's late_resolution characterised]; "
               "no_color configurations and no_color palettes are effect-free [nocolor]; a palette obtained at any time equals "
-              "get_color of its syntax ids in the current state, cached or not [cache_fresh]; synced palettes of the global "
+              "get_color of its syntax ids in the current state, cached or not, also when handed out as a sub-palette of a compound "
+              "palette [cache_fresh, sub_palette_fresh]; synced palettes of the global "
               "configuration show get_color of their ids in the CURRENT state after every registration, resolved or not, nested "
               "re-syncs included [synced_fresh, synced_pending_uncoloured]; every palette class is a component of its own, identified "
               "by the class and not by its name: registered implies all its defaults described [registered_class_described]; with "
